@@ -87,17 +87,28 @@ public:
 
     virtual SyntaxToken firstToken() const override
     {
-        if (this->value)
-            return this->value->firstToken();
+        // An entry may be null or own no token (error recovery, a stray `;').
+        for (auto it = this; it; it = it->next) {
+            if (it->value) {
+                auto tk = it->value->firstToken();
+                if (tk != SyntaxToken::invalid())
+                    return tk;
+            }
+        }
         return SyntaxToken::invalid();
     }
 
     virtual SyntaxToken lastToken() const override
     {
-        SyntaxNodeT node = this->lastValue();
-        if (node)
-            return node->lastToken();
-        return SyntaxToken::invalid();
+        auto lastTk = SyntaxToken::invalid();
+        for (auto it = this; it; it = it->next) {
+            if (it->value) {
+                auto tk = it->value->lastToken();
+                if (tk != SyntaxToken::invalid())
+                    lastTk = tk;
+            }
+        }
+        return lastTk;
     }
 
     virtual SyntaxVisitor::Action acceptVisitor(SyntaxVisitor* visitor) override
